@@ -72,6 +72,7 @@ type vhPhys struct {
 	// stack contains kfStack ("" = any) fails, once
 	kfKind, kfSub, kfStack string
 	kfArmed, kfFired       bool
+	kfSticky               bool // the key fault stays armed until KeyFaultFired() disarms it (a storage outage, not a single failure)
 	// one-shot hold of a Get after it was performed (HoldAfterGet)
 	agSub, agStack    string
 	agArmed           bool
@@ -123,7 +124,14 @@ func (p *vhPhys) FailNth(t, n int) {
 // storage op of the given kind whose key contains sub, issued from a call stack that contains stackSub, fails once.
 func (p *vhPhys) FailKeyOnce(kind, sub, stackSub string) {
 	p.mu.Lock()
-	p.kfKind, p.kfSub, p.kfStack, p.kfArmed, p.kfFired = kind, sub, stackSub, true, false
+	p.kfKind, p.kfSub, p.kfStack, p.kfArmed, p.kfFired, p.kfSticky = kind, sub, stackSub, true, false, false
+	p.mu.Unlock()
+}
+
+// FailKeyUntilCleared: like FailKeyOnce, but EVERY matching operation fails until KeyFaultFired() is called
+func (p *vhPhys) FailKeyUntilCleared(kind, sub, stackSub string) {
+	p.mu.Lock()
+	p.kfKind, p.kfSub, p.kfStack, p.kfArmed, p.kfFired, p.kfSticky = kind, sub, stackSub, true, false, true
 	p.mu.Unlock()
 }
 
@@ -131,7 +139,7 @@ func (p *vhPhys) FailKeyOnce(kind, sub, stackSub string) {
 func (p *vhPhys) KeyFaultFired() bool {
 	p.mu.Lock()
 	defer p.mu.Unlock()
-	p.kfArmed = false
+	p.kfArmed, p.kfSticky = false, false
 	return p.kfFired
 }
 
@@ -201,7 +209,7 @@ func (p *vhPhys) before(kind, key string) error {
 			hit = bytes.Contains(b, []byte(p.kfStack))
 		}
 		if hit {
-			p.kfArmed, p.kfFired = false, true
+			p.kfArmed, p.kfFired = p.kfSticky, true
 			op.Failed = true
 		}
 	}
